@@ -41,6 +41,17 @@ type Prop struct {
 	Setup func()
 	// NoRestartOnPanic: a recovered panic does not end the process.
 	NoRestartOnPanic bool
+	// Tool is an optional property-specific sub-command (fact extractors, schedule
+	// runners, …): `harness <prop> -tool args…`; its return value is the exit status.
+	Tool func(args []string) int
+}
+
+// repoDir is the source tree under test (for extractors reading Go source).
+func repoDir() string {
+	if d := os.Getenv("VERIF_REPO"); d != "" {
+		return d
+	}
+	return "/repo"
 }
 
 var registry = map[string]*Prop{}
@@ -80,6 +91,13 @@ func main() {
 	if !ok {
 		fmt.Fprintln(os.Stderr, "unknown property", id)
 		os.Exit(2)
+	}
+	if len(os.Args) > 2 && os.Args[2] == "-tool" {
+		if p.Tool == nil {
+			fmt.Fprintln(os.Stderr, "property", id, "has no tool")
+			os.Exit(2)
+		}
+		os.Exit(p.Tool(os.Args[3:]))
 	}
 	fs := flag.NewFlagSet("harness", flag.ExitOnError)
 	tier := fs.String("tier", "quick", "quick|thorough")
